@@ -173,7 +173,7 @@ def x86_op_text(op, v=0):
     if op[0] == "reg":
         return "%" + op[2]
     if op[0] == "imm":
-        return ["$1", "$-8", "$0x20"][v % 3]
+        return ["$1", "$-8", "$0x20", "$0"][v % 4]
     if op[0] == "id":
         return [".L5", "foo"][v % 2]
     _, hb, ho, hi, sc = op
@@ -369,7 +369,8 @@ def a64_op_text(op, v=0):
             return "v%s.%s%s" % (n, {"s": "4", "d": "2", "b": "16", "h": "8"}[sh], sh)
         return "%s%s.%s" % (p, n, sh)
     if op[0] == "imm":
-        return ["#1", "#0x10", "12"][v % 3] if op[1] == "int" else ["#1.5", "#2.0e+1"][v % 2]
+        # (zero is an immediate like any other)
+        return ["#1", "#0x10", "12", "#0", "#0x0", "0"][v % 6] if op[1] == "int" else ["#1.5", "#2.0e+1", "#0.0"][v % 3]
     if op[0] == "id":
         return [".L5", "foo"][v % 2]
     if op[0] == "cc":
